@@ -555,6 +555,39 @@ def rust_opassign_counts(fns, allf):
     return out
 
 
+def c_local_opassigns(body):
+    """{(local, operator)} for every compound assignment `name OP= ...` to a plain local of a C function body"""
+    out = set()
+    for m in re.finditer(r"(?<![\w>.\]])([a-z_]\w*)\s*(>>=|<<=|\+=|-=|\|=|&=|\^=)", body):
+        out.add((m.group(1), C_OPS[m.group(2)]))
+    return out
+
+
+def rust_local_opassigns(f):
+    """{(local name, operator): sites} for every `x = x OP ..` on a named local of one function (also through shadowing:
+    the operand is a local of the same name)"""
+    out = {}
+    for bi, si, lhs, rv, st in f.assignments():
+        if lhs.get("p"):
+            continue
+        L = lhs["l"]
+        name = f.local_name(L)
+        if not name:
+            continue
+        e = mir.strip_casts(f.rvalue_expr(rv))
+        if e and e[0] == "f" and isinstance(e[1], tuple) and e[1] and e[1][0] == "bin":
+            e = e[1]
+        if not (e and e[0] == "bin"):
+            continue
+        a = mir.strip_casts(e[2])
+        if a[0] in ("v", "p") and (a[1] == L or f.local_name(a[1]) == name):
+            op = str(e[1])
+            for suf in ("WithOverflow", "Unchecked"):
+                op = op.replace(suf, "")
+            out[(name, op)] = out.get((name, op), 0) + 1
+    return out
+
+
 def rust_opassigns(fns):
     """(field, operator) for every store `place.field = place.field OP ...` (a compound assignment)"""
     return set(_rust_opassign_sites(fns))
@@ -904,6 +937,23 @@ def check(ck, P, rule, only=None):
                           "zlib-ng's %s updates `%s` in place with %s at %d places and so did the port; %s (with its helpers) now does so at %d: "
                           "one of the in-place updates of the reference became a plain store or was dropped"
                           % (cname, cf, op, want, ", ".join(f.path.replace(Z, "") for f in fns), got), where(fns[0]))
+        for fpath, want_ in sorted(table.get("local_ops", {}).get(key, {}).items()):
+            g = P.fns.get(fpath)
+            if g is None:
+                continue
+            have_ = rust_local_opassigns(g)
+            names_ = {str(l.get("name")) for l in g.locals if l.get("name")}
+            for no, cnt in sorted(want_.items()):
+                nm, op = no.split("|")
+                if nm not in names_:
+                    continue  # the working local was renamed: nothing to compare by name
+                n += 1
+                got = have_.get((nm, op), 0)
+                ck.decide(got >= cnt, rule, "%s:local-update:%s:%s:%s" % (cname, fpath.split("::")[-1], nm, op),
+                          "working local still updated in place (%d site(s))" % cnt,
+                          "zlib-ng's %s updates its local `%s` with %s and %s did so at %d place(s); it now does at %d although the local "
+                          "is still there: an adjustment of the reference's working variable was dropped or turned into a fresh value"
+                          % (cname, nm, op, fpath.replace(Z, ""), cnt, got), where(g))
         for cf, frozen in sorted(table.get("opsets", {}).get(key, {}).items()):
             n += 1
             alts = ALIAS.get(cf.lower(), {cf.lower()}) | {cf.lower()}
